@@ -62,7 +62,16 @@ class C01(Prop):
             return impl
         trace = impl.split(" | ")[0].split()
         reqs, resps = {}, {}
+        first = {}     # bytes handed out by single recv_data calls made before the reader loop (they are body bytes)
         for t in trace:
+            m = re.match(r"^([sc])\.q(\d+)\.rd=data:([0-9a-f]+)$", t)
+            if m:
+                first[(m.group(1), m.group(2))] = first.get((m.group(1), m.group(2)), "") + m.group(3)
+                continue
+            m = re.match(r"^([sc])\.q(\d+)\.rm=body:([0-9a-f-]+):(.*)$", t)
+            if m and (m.group(1), m.group(2)) in first:
+                body = first.pop((m.group(1), m.group(2))) + (m.group(3) if m.group(3) != "-" else "")
+                t = "%s.q%s.rm=body:%s:%s" % (m.group(1), m.group(2), body or "-", m.group(4))
             m = re.match(r"^s\.q(\d+)\.(res|rm)=(.*)$", t)
             if m:
                 reqs.setdefault(int(m.group(1)), []).append("s.q%s.%s=%s" % m.groups())
@@ -163,27 +172,49 @@ class C01(Prop):
                 merged.append(relay(">"))
             if bp and rng.random() < 0.7:
                 merged.append("c:gw%d:%d" % (rng.choice(streams), rng.choice([1, 3, 7, 100, 100000])))
+        early_rm = set()
         if early:
             # the server task exists once the stream has been accepted: let one byte through first
             for sid in streams:
                 ops += [">%d:1" % sid, "s.q%d.res" % sid]
+                if rng.random() < 0.6:
+                    # the reader loop runs while the message is still arriving: every delivery below wakes it
+                    ops.append("s.q%d.rm" % sid)
+                    early_rm.add(sid)
+            # deliveries in small steps between the sender's calls
+            trick = []
+            for op in merged:
+                trick.append(op)
+                if rng.random() < 0.5:
+                    trick.append(">%d:%d" % (rng.choice(streams), rng.choice([1, 2, 3, 5, 9, 17, 40, 200])))
+            merged = trick
         ops += merged
         if bp:
             for sid in streams:
                 ops.append("c:gw%d:10000000" % sid)
+        server_split = set()
+        if not early and not bp and rng.random() < 0.35:
+            # the application reads the beginning of the body from the whole stream, splits it in the middle of
+            # a DATA frame, and goes on reading from the receive half
+            for sid in streams:
+                ops += [">%d:%d" % (sid, rng.choice([40, 60, 100, 300, 1000])), "s.q%d.res" % sid, "s.q%d.rd" % sid, "s.q%d.sp" % sid]
+                server_split.add(sid)
         ops.append(relay(">"))
         for sid in streams:
-            if not early:
+            if not early and sid not in server_split:
                 ops.append("s.q%d.res" % sid)
-            ops.append("s.q%d.rm" % sid)
+            if sid not in early_rm:
+                ops.append("s.q%d.rm" % sid)
         # responses
         for sid in streams:
-            sender = "s.q%d" % sid
+            sender = "s.q%ds" % sid if sid in server_split else "s.q%d" % sid
             ops.append("%s.sr:%d:%s" % (sender, rng.choice(STATUS), self.headers(rng)))
             if sbp:
                 for k in (rng.choice([1, 3]), 10000000):
                     ops.append("s:gw%d:%d" % (sid, k))
-            if rng.random() < 0.3:
+            if sid in server_split:
+                sender = "s.q%ds" % sid
+            elif rng.random() < 0.3:
                 ops.append("s.q%d.sp" % sid)
                 sender = "s.q%ds" % sid
             for p in self.body_pieces(rng, big):
@@ -195,6 +226,10 @@ class C01(Prop):
             ops.append("%s.fi" % sender)
             if rng.random() < 0.5:
                 ops.append("c.q%d.rr" % sid)
+                if rng.random() < 0.5:
+                    ops.append("c.q%d.rm" % sid)
+                    for _ in range(rng.randrange(0, 6)):
+                        ops.append("<%d:%d" % (sid, rng.choice([1, 2, 3, 5, 9, 17, 40, 200])))
         ops.append(relay("<"))
         for sid in streams:
             ops += ["c.q%d.rr" % sid, "c.q%d.rm" % sid]
@@ -202,7 +237,7 @@ class C01(Prop):
         seen_rr = set()
         out = []
         for op in ops:
-            if op.endswith(".rr"):
+            if op.endswith(".rr") or re.match(r"^c\.q\d+\.rm$", op):
                 if op in seen_rr:
                     continue
                 seen_rr.add(op)
